@@ -816,8 +816,11 @@ SystemMaybe<int64_t> Fs::getNrDyingDescendantsAt(const DirFd& dirfd) {
     return SYSTEM_ERROR(lines.error());
   }
   auto map = getMemstatLikeFromLines(lines.value());
-  // Will return 0 for missing entries
-  return map["nr_dying_descendants"];
+  auto pos = map.find("nr_dying_descendants");
+  if (pos == map.end()) {
+    return SYSTEM_ERROR(EINVAL);
+  }
+  return pos->second;
 }
 
 SystemMaybe<KillPreference> Fs::readKillPreferenceAt(const DirFd& path) {
@@ -864,6 +867,9 @@ SystemMaybe<bool> Fs::readMemoryOomGroupAt(const DirFd& dirfd) {
   auto lines = readFileByLine(Fs::Fd::openat(dirfd, kMemOomGroupFile));
   if (!lines) {
     return SYSTEM_ERROR(lines.error());
+  }
+  if (lines->size() != 1) {
+    return SYSTEM_ERROR(EINVAL);
   }
   return *lines == std::vector<std::string>({"1"});
 }
